@@ -7,7 +7,9 @@ CONSTANTS
   MaxEmit = 0
   MaxSreq = 0
   MaxSa = 2
+  MaxBc = 0
+  DupOf <- NoDup
   Gates = TRUE
 VIEW MCView
-INVARIANTS ResumeExact IdsDense IdStable StoreBeforeDeliver CompleteAtEnd CompleteAtRest FinalObtainable RefusedOnlyOnConflict ResponseOnOwnExchange NestedRouting NoCrossSession RoutingEntryLifecycle LockDiscipline SdkEnabledExact
+INVARIANTS ResumeExact IdsDense IdStable StoreBeforeDeliver CompleteAtEnd CompleteAtRest FinalObtainable RefusedOnlyOnConflict ResponseOnOwnExchange NestedRouting NoCrossSession RoutingEntryLifecycle LockDiscipline IdUnique SdkEnabledExact
 CHECK_DEADLOCK FALSE
